@@ -2,6 +2,8 @@
 //! runs the real gamedig code, prints the same canonical text.
 mod canon;
 mod cases;
+mod query;
+mod ser;
 mod rd;
 
 use std::io::{BufRead, Write};
